@@ -331,6 +331,7 @@ class DistributedInvocation(BaseInvocation[Params, Result]):
                 self.invocation_id, InvocationStatus.RUNNING, runner_ctx
             )
             self._register_workflow_run()
+            self.wf_deterministic_executor = None  # every execution replays from the start
             result = run_task_sync(self.task.func, **self.arguments.kwargs)
             self.app.orchestrator.set_invocation_result(self, result, runner_ctx)
         except WorkflowPauseError as ex:
